@@ -1,4 +1,5 @@
 import Ledger.Proofs.SqlRevertExpr
+import Ledger.Proofs.SqlTxStmts
 import Ledger.Proofs.SqlRunAccounts
 
 /-!
@@ -10,10 +11,19 @@ transaction-metadata statements.
   expression evaluator, holds exactly when the row is transaction `txid` of this ledger AND
   `reverted_at IS NULL` — the guard of `Spec.markReverted` (the `reverted_at is null` part is what makes a
   second revert a no-op).
-* NOT proved in general: the CTE / UPDATE loop / UNION ALL … LIMIT 1 plumbing that turns the guard into
-  "mark once, answer `modified = true` once", and the per-ledger AFTER UPDATE trigger
-  (`update_transaction_metadata_history`) that fires on the revert. Fallback, labelled below: BOUNDED
-  REGRESSION OBLIGATIONS by kernel evaluation on concrete scenarios.
+* PROVED in general (`revertTransaction_update_sem`, `revertTransactionAt_update_sem`): the data-modifying CTE
+  of the statement — LeanPG's whole UPDATE loop (scan under the statement's snapshot, WHERE, latest version,
+  row lock check, SET, constraints, both unique indexes of `transactions`, new row version) — for ANY
+  contents of `transactions` satisfying the storage invariants `TxTblState` (typed rows, primary key and
+  reference index unique among the versions the transaction sees, fresh command id, no other transaction in
+  progress): exactly the rows with `id = txid ∧ reverted_at IS NULL ∧ ledger = l` get `reverted_at =
+  updated_at = date`, every other row and every other table is untouched, the invariants are kept, and
+  RETURNING holds the new rows. Restriction: `transactions` carries no UPDATE trigger (ledger without
+  TRANSACTION_METADATA_HISTORY); for the plain variant the transaction's `transaction_date()` is already set.
+* NOT proved in general: the outer `SELECT … UNION ALL … LIMIT 1` that turns RETURNING into the `modified`
+  flag, and the per-ledger AFTER UPDATE trigger (`update_transaction_metadata_history`) that fires on the
+  revert when metadata history is on. Fallback, labelled below: BOUNDED REGRESSION OBLIGATIONS by kernel
+  evaluation on concrete scenarios.
 -/
 namespace Ledger.C15b
 open Ledger Ledger.Sql Ledger.Generated Ledger.Generated.WriteSql
@@ -44,6 +54,40 @@ theorem revertTransactionAt_sem (cb : Callbacks) (te : TypeEnv) (env : Env) (b l
             [] (some wher) ret)] body [] (some (Expr.int 1)) none LockMode.none)] ∧
       (evalExpr cb te env wher).exec s = (.ok (.bool (decide (i = txid ∧ ra = none ∧ lr = l))), s) :=
   revertTransactionAt_exprs cb te env b l id txid i atTs ra lr s h1 h2 h3
+
+/-- General: the UPDATE of `RevertTransaction … AT`. `visLookup lv rows rid` = the values of the version of row
+    `rid` the transaction sees; on a typed row `txG g (txVals x) = g x` and `txF f (txVals x) = txVals (f x)`
+    (`Ledger.Sql.tx_row_effect`), with `revG l txid x = (x.id = txid ∧ x.revertedAt = none ∧ x.ledger = l)` and
+    `revF T x = { x with revertedAt := some T, updatedAt := T }` — the guard and effect of `Spec.markReverted`. -/
+theorem revertTransactionAt_update_sem (n : Nat) (env : Env) (b l : String) (id : Nat) (txid : Int) (atTs : String) (T : Int)
+    (hb : b.isEmpty = false) (hT : tsParse atTs = .ok T)
+    (trigs : List TriggerDef) (nr : Nat) (rows : List Ver) (s : St) (hs : TxTblState s b trigs nr rows)
+    (hnb : trigs.filter (fun tr => tr.timing == .before && tr.event == .update) = [])
+    (hna : trigs.filter (fun tr => tr.timing == .after && tr.event == .update) = []) :
+    ∃ rows', (((P.revertTransactionAt b l id txid atTs).flatMap cteStmts).mapM (execStmt (n + 7) env)).exec s =
+        (.ok [txUpdResult (latestView s.w s.xid) rows (revG l txid) (revF T)], s.withTable ((txT b trigs nr).withRows rows')) ∧
+      (∀ rid, visLookup (latestView s.w s.xid) rows' rid =
+        (visLookup (latestView s.w s.xid) rows rid).map (fun v => if txG (revG l txid) v then txF (revF T) v else v)) ∧
+      TxInv (latestView s.w s.xid) rows' ∧ RidInj (latestView s.w s.xid) rows' :=
+  revertAt_update_bridge n env b l id txid atTs T hb hT trigs nr rows s hs hnb hna
+
+/-- General: the UPDATE of `RevertTransaction` (date = the transaction's `transaction_date()`, already set to `d`). -/
+theorem revertTransaction_update_sem (n : Nat) (env : Env) (b l : String) (id : Nat) (txid : Int) (d : Int)
+    (hbs : (b.isEmpty || b == "public" || b == "pg_catalog") = false)
+    (trigs : List TriggerDef) (nr : Nat) (rows : List Ver) (s : St) (hs : TxTblState s b trigs nr rows) (hd : TxDateSet b d s)
+    (hnb : trigs.filter (fun tr => tr.timing == .before && tr.event == .update) = [])
+    (hna : trigs.filter (fun tr => tr.timing == .after && tr.event == .update) = []) :
+    ∃ rows', (((P.revertTransaction b l id txid).flatMap cteStmts).mapM (execStmt (n + 7) env)).exec s =
+        (.ok [txUpdResult (latestView s.w s.xid) rows (revG l txid) (revF d)], s.withTable ((txT b trigs nr).withRows rows')) ∧
+      (∀ rid, visLookup (latestView s.w s.xid) rows' rid =
+        (visLookup (latestView s.w s.xid) rows rid).map (fun v => if txG (revG l txid) v then txF (revF d) v else v)) ∧
+      TxInv (latestView s.w s.xid) rows' ∧ RidInj (latestView s.w s.xid) rows' :=
+  revert_update_bridge n env b l id txid d hbs trigs nr rows s hs hd hnb hna
+
+/-- a reverted row stays as it is: the guard is false on it (the second revert is a no-op) -/
+theorem revert_guard_false_on_reverted (l : String) (txid : Int) (x : TxR) (T : Int) (h : x.revertedAt = some T) :
+    revG l txid x = false := by
+  simp [revG, h]
 
 /-! ### BOUNDED REGRESSION OBLIGATIONS (kernel evaluation on concrete scenarios; not general theorems) -/
 
